@@ -6,8 +6,13 @@
     the *result does not depend on the order in which the runtime iterates
     over maps* ([ord1], [ord2]: any order oracles) nor on the order in which
     the entries of the pattern's, the message's and the bound values'
-    objects are listed (Go maps have no order; [jperm]).  Aliasing and
-    concurrent use are observed on the implementation (harness probes). *)
+    objects are listed (Go maps have no order; [jperm]).  The aliasing half
+    ("never modified", "independent maps") is stated, at the end of this
+    file, of the heap-level re-statement of the matcher (Model/MatchHeap.v),
+    which copies and writes in place exactly where match.go does and erases
+    to [match_]; that it is match.go's copy discipline is my reading of the
+    source, tested by the harness's identity probes (Corr/MatchHeapCorr.v).
+    Concurrent use is observed on the implementation only. *)
 From Sheens Require Import Model.Match Proofs.OrderBase Proofs.MatchOrder Proofs.PatternOrder
      Proofs.EntryOrder Proofs.OrderSanity.
 
@@ -44,3 +49,97 @@ Example C03_nonvacuous :
   match_ ord_id 10 (JObj [("?k", JStr "?v")]) (JObj [("a", JNum 4); ("b", JNum 8)]) []
   <> match_ ord_rev 10 (JObj [("?k", JStr "?v")]) (JObj [("a", JNum 4); ("b", JNum 8)]) [].
 Proof. split; [exact ord_id_perm | split; [exact ord_rev_perm | exact oracle_matters]]. Qed.
+
+(** * The aliasing half, on the heap-level matcher (Model/MatchHeap.v)
+
+    [hMatch_at ord fuel p f c s] is [Matcher.Match] run on a heap [s] of
+    bindings maps with the caller's map at address [c]: it copies where
+    match.go copies, writes in place where match.go writes in place, returns
+    addresses, and logs every copy, write and return of a [Match].  The
+    statements hold for every heap, every caller address in it, every fuel
+    and every order oracle (no hypothesis on [ord] is needed). *)
+From Sheens Require Import Model.MatchHeap Corr.MatchHeapCorr
+     Proofs.MatchHeapProofs Proofs.MatchHeapReport.
+
+(** reading the returned addresses in the final heap gives exactly what the
+    pure model returns: same list, same order, same outcome class *)
+Theorem C03_heap_erasure :
+  forall ord fuel p f c s, c < hsize s ->
+  read_res (hMatch_at ord fuel p f c s) = match_ ord fuel p f (hread s c).
+Proof. exact heap_erasure. Qed.
+Print Assumptions C03_heap_erasure.
+
+(** the caller's map (any map that existed before the call): same contents
+    afterwards, not among the returned maps, never the target of a write *)
+Theorem C03_caller_bindings_never_written :
+  forall ord fuel p f c s r s',
+  c < hsize s -> hMatch_at ord fuel p f c s = (r, s') ->
+  (forall b, b < hsize s -> hread s' b = hread s b) /\
+  (forall b, b < hsize s -> ~ In b (res_addrs r)) /\
+  exists L, st_log s' = L ++ st_log s /\
+            forall b k, b < hsize s -> ~ In (EvWrite b k) L.
+Proof. exact heap_caller_intact. Qed.
+Print Assumptions C03_caller_bindings_never_written.
+
+(** the returned maps are pairwise distinct and all allocated during the
+    call; every write of the call targets a map allocated during the call *)
+Theorem C03_results_are_distinct_fresh_maps :
+  forall ord fuel p f c s r s',
+  c < hsize s -> hMatch_at ord fuel p f c s = (r, s') ->
+  NoDup (res_addrs r) /\
+  (forall x, In x (res_addrs r) -> hsize s <= x < hsize s') /\
+  exists L, st_log s' = L ++ st_log s /\
+            forall x k, In (EvWrite x k) L -> hsize s <= x < hsize s'.
+Proof. exact heap_results_fresh_distinct. Qed.
+Print Assumptions C03_results_are_distinct_fresh_maps.
+
+(** hence a write to one returned map changes no other returned map and no
+    map that existed before the call *)
+Theorem C03_results_can_be_changed_independently :
+  forall ord fuel p f c s r s',
+  c < hsize s -> hMatch_at ord fuel p f c s = (r, s') ->
+  forall x k v, In x (res_addrs r) ->
+  (forall y, In y (res_addrs r) -> y <> x -> hread (hwrite x k v s') y = hread s' y) /\
+  (forall b, b < hsize s -> hread (hwrite x k v s') b = hread s b).
+Proof. exact heap_results_independent. Qed.
+Print Assumptions C03_results_can_be_changed_independently.
+
+(** in chronological order the events of the call end with the return of its
+    result, and after a [Match] - this one or one called inside it - has
+    returned a list of maps, no write targets a map of that list *)
+Theorem C03_no_write_after_return :
+  forall ord fuel p f c s r s',
+  c < hsize s -> hMatch_at ord fuel p f c s = (r, s') ->
+  exists C, chron s' = chron s ++ C /\
+    (forall l, r = Ok l -> exists C', C = C' ++ [EvReturn l]) /\
+    (forall C1 l C2, C = C1 ++ EvReturn l :: C2 ->
+       forall x k, In (EvWrite x k) C2 -> ~ In x l).
+Proof. exact heap_no_late_writes. Qed.
+Print Assumptions C03_no_write_after_return.
+
+(** what the executable report predicts for the harness's identity probes,
+    for every input: results distinct and not the caller's map; caller's map
+    intact and never written *)
+Theorem C03_alias_report_constant :
+  forall p f bs, heap_alias_report p f bs = (true, true).
+Proof. exact heap_alias_report_true. Qed.
+Print Assumptions C03_alias_report_constant.
+
+(** non-vacuity: pattern ["?x"] against [1,2,{"a":3}] with {"?y":7} given
+    returns three maps, at three distinct fresh addresses, each written once
+    before it was returned; the caller's map at address 0 is only copied *)
+Example C03_heap_nonvacuous :
+  fst (HMatch ex_pattern ex_message ex_bindings) = Ok [3; 5; 7] /\
+  read_res (HMatch ex_pattern ex_message ex_bindings) =
+    Ok [[("?x", JObj [("a", JNum 3)]); ("?y", JNum 7)];
+        [("?x", JNum 1); ("?y", JNum 7)];
+        [("?x", JNum 2); ("?y", JNum 7)]] /\
+  hread (snd (HMatch ex_pattern ex_message ex_bindings)) caller_addr = ex_bindings /\
+  chron (snd (HMatch ex_pattern ex_message ex_bindings)) =
+    [EvCopy 0 1;
+     EvCopy 1 2; EvCopy 2 3; EvWrite 3 "?x"; EvReturn [3];
+     EvCopy 1 4; EvCopy 4 5; EvWrite 5 "?x"; EvReturn [5];
+     EvCopy 1 6; EvCopy 6 7; EvWrite 7 "?x"; EvReturn [7];
+     EvReturn [3; 5; 7]] /\
+  heap_alias_report ex_pattern ex_message ex_bindings = (true, true).
+Proof. exact heap_example. Qed.
